@@ -232,6 +232,22 @@ int c11_run(const char *tier) {
 			if (i == L || confirmed || combos >= 36) break;
 		}
 	}
+	/* a read lock taken again by its holder (self-edge shared -> shared): harmless with glibc's default reader preference, a
+	 * deadlock as soon as the lock prefers writers and a writer arrives in between.  Every call that exhibits it is explored
+	 * against the receiver's and the API's writers of the two rwlocks; only a confirmed deadlock is a violation. */
+	for (int x = 0; x < nlk; x++) if (G[x][x] & 8) {
+		char all[600]; size_t ao = 0; all[0] = 0; for (int k = 0; k < nGl[x][x] && ao + 80 < sizeof all; k++) ao += (size_t) snprintf(all + ao, sizeof all - ao, "%s; ", Glabels[x][x][k]);
+		rep_note("read lock %s is taken again by its holder in: %s", lkname[x], all);
+		static const char *WRITERS[] = {"receiver:type-8d-from-master", "receiver:type-8c-from-master", "receiver:type-e5-from-master", "bidib_set_train_speed", "bidib_set_train_peripheral"};
+		for (int k = 0; k < nGl[x][x]; k++) for (unsigned w = 0; w < sizeof WRITERS / sizeof WRITERS[0]; w++) {
+			int e1 = entry_by_name(Glabels[x][x][k]), e2 = entry_by_name(WRITERS[w]); if (e1 < 0 || e2 < 0 || (e1 >= N_HL + N_LL && e2 >= N_HL + N_LL)) continue;
+			if (rep_elapsed() > rep_deadline_s) break;
+			uint8_t param[20]; param[0] = 2; memcpy(param + 1, &e1, 4); memcpy(param + 5, &e2, 4); param[9] = 0;
+			char label[300]; snprintf(label, sizeof label, "c11.pair recursive read lock %s: %s || %s", lkname[x], Glabels[x][x][k], WRITERS[w]);
+			e1_spec_t s = { .harness = "c11.pair", .param = param, .nparam = 10, .bound = thorough ? 2 : 1, .label = strdup(label) };
+			e1_explore(&s); for (int q = 0; q < 8; q++) pair_execs += s.schedules_by_cost[q]; confirmed_runs++;
+		}
+	}
 	rep_count("executions", e.done + pair_execs); rep_count("states", nedges > 0 ? nedges : 1); rep_count("transitions", rep_get("api_calls")); rep_count("distinct_nontrivial", rep_get("api_calls"));
 	rep_flag("exhaustive", e.exhaustive);
 	rep_note("catalogue: %d entries (%d high-level/util, %d low-level, 384 receiver cases) x 7 variants (2 connectivity x {after start-up, populated: trains on track / segments occupied}, congested: interface budget exhausted and oc1 stalled, populated + congested, backlog: large capacity announced and 96 bytes unflushed in the send buffer) = %ld calls; lock-order graph: %d locks, %d edges, %d cycle candidates, %ld explored for confirmation (%ld schedules)",
